@@ -16,7 +16,7 @@ Few(seq) == Cardinality({seq[i] : i \in 1..Len(seq)}) <= 3
 VaultReplies == {r \in SeqsOver(PadKinds, MaxReplies) : Few(r)}
 ChunkReplies == SeqsOver(ChunkKinds, 3)
 Positions == {"root", "top", "bottom"}
-SubstKinds == {"authentic", "wrongcontent", "wrongkey", "wrongkind", "missing"}
+SubstKinds == {"authentic", "wrongcontent", "wrongkey", "wrongkind", "missing", "paidsubst"}
 
 VARIABLES op, replies, outcome, res, pos
 vars == <<op, replies, outcome, res, pos>>
